@@ -41,8 +41,18 @@ Theorem rs_alloc_bounded : forall ss f ds d outlen,
 Proof. exact alloc_rs_bound. Qed.
 Print Assumptions rs_alloc_bounded.
 
-(* memory: the Python loop materialises at most |delta| * max(1, min(|base|, declared)) bytes *)
-Theorem py_materialised_bounded : forall ss ds f d,
-  wf_bytes d -> 0 <= mat_py f ss ds d <= zlen d * Z.max 1 (Z.min ss ds).
+(* memory: the Python loop never holds more than the declared size, nor more
+   than 2^24 bytes per delta byte supplied *)
+Theorem py_materialised_bounded : forall ss f ds d outlen,
+  wf_bytes d -> 0 <= outlen <= ds ->
+  outlen <= mat_py f ss ds d outlen <= Z.min ds (outlen + 2 ^ 24 * zlen d).
 Proof. exact mat_py_bound. Qed.
 Print Assumptions py_materialised_bounded.
+
+(* ... which a loop that compares the total with the declared size only after
+   the last operation does not give: n bytes of delta made it hold n * 65536
+   bytes against a declared size of 65536 *)
+Theorem late_size_check_is_unbounded_refuted : forall n : nat,
+  mat_py_late (S n) 65536 65536 (repeat 128 n) = 65536 * Z.of_nat n.
+Proof. exact mat_py_late_unbounded. Qed.
+Print Assumptions late_size_check_is_unbounded_refuted.
